@@ -217,7 +217,7 @@ def run(rep):
 
 
     def dispatch_rules():
-        dv = DispatchView(repo)
+        dv = DispatchView(repo, multi_exec=True)
         f, cfg = dv.fi, dv.cfg
         # ---- R08.a -----------------------------------------------------------
         for q in ('BoundRoute.execute', 'BoundRoute.execute_error'):
@@ -236,6 +236,7 @@ def run(rep):
             rep.fail('R08.a', fkey(f, 'route.execute handler'), 'route.execute(...) is not inside a try with "except Exception"', app, dv.exec_st)
         else:
             tr = [t for t, part in enclosing_tries(app, dv.exec_st, f.node) if part == 'body' and h in t.handlers][0]
+            exec_try = tr
             idx = tr.handlers.index(h)
             earlier = tr.handlers[:idx]
             ok, how = reroute_passes(dv, f, tr)
@@ -289,6 +290,25 @@ def run(rep):
                         norm(lit['_route']) == dv.route_var and _is_the_error(dv, cfg, h, asg, lit['_error'], utr[0])
                 rep.check('R08.a', fkey(f, 'uncaught params'), ok, 'the handler gets the request parameters plus _route and _error' if ok else
                           'uncaught_to_response is not given (params, _route=route, _error=exc)', app, c)
+        # every other call that runs a route (``<receiver>.execute(...)``: the null route run by name, a second call on the
+        # loop variable): it runs an endpoint behind the application's middleware chain like the first one, so it is judged
+        # like the first one -- inside the protected region whose handler was judged above, its result in the result variable
+        extra_sites = []
+        for c in dv.extra_exec:
+            st = stmt_of(app, c)
+            who = norm(c.func.value)
+            h2 = protected_by(f, st, 'Exception')
+            key = fkey(f, 'route.execute handler: %s' % who)
+            if h2 is None:
+                rep.fail('R08.a', key, '%s.execute(...) runs a route (its endpoint and the middleware chain in front of it) outside every try '
+                         'with "except Exception": what it raises leaves dispatch and the WSGI callable instead of becoming the error '
+                         'handler\'s 500' % who, app, st)
+                continue
+            if h is not None and h2 is not h:
+                raise AnalysisError('Application.dispatch: %s.execute(...) is protected by a handler of its own, which is not followed' % who)
+            rep.ok('R08.a', key, '%s.execute(...) runs in the same protected region as route.execute(...)' % who, app, st)
+            extra_sites.append((c, st, who))
+
         # _dispatch_wsgi catches RerouteWSGI around dispatch
         dw = app.func('Application._dispatch_wsgi')
         dc = [c for c in walk_body(dw.node) if isinstance(c, ast.Call) and norm(c.func) == 'self.dispatch']
@@ -347,8 +367,9 @@ def run(rep):
         recv = eec.func.value
         recv_ok = isinstance(recv, ast.Attribute) and recv.attr == 'source_route' and norm(dv.resolve(recv.value)) == dv.ret_var
         sr_store = [s for s in stmts_of(f.node) if isinstance(s, ast.Assign) and norm(s.targets[0]) == '%s.source_route' % dv.ret_var]
-        ok = recv_ok and len(sr_store) == 1 and norm(sr_store[0].value) == dv.route_var and \
-            has_cond(conds(f, sr_store[0]), lambda t: 'source_route' in norm(t), False)
+        # (one store per place that produces a result: after the loop's route.execute, after a further call that runs a route)
+        ok = recv_ok and bool(sr_store) and len(sr_store) <= 1 + len(dv.extra_exec) and \
+            all(norm(s_.value) == dv.route_var and has_cond(conds(f, s_), lambda t: 'source_route' in norm(t), False) for s_ in sr_store)
         rep.check('R08.a', fkey(f, 'source_route'), ok, 'an error without a source route is attributed to the route that produced it before being rendered' if ok else
                   'ret.source_route may be unset when execute_error is called', app, sr_store[0] if sr_store else ee)
         # dispatch returns the result on every path: the result variable, or directly what the renderer / its fallback gave
@@ -379,6 +400,26 @@ def run(rep):
                   'a non-Response result raises TypeError inside the same try as route.execute, so it is converted like any uncaught error' if ok else
                   'a non-Response result is not turned into an error inside the protected region (None/str results escape as they are)', app,
                   rz[0] if rz else dv.exec_st)
+        # ... and that for every call site that runs a route: its result is in the result variable, and no way from the call
+        # leaves the protected region without the test
+        if h is not None:
+            is_resp = lambda t: norm(t) == 'isinstance(%s, BaseResponse)' % dv.ret_var
+            tests = set(dv.branches_where(is_resp, True)) | set(dv.branches_where(is_resp, False))
+            body_ids = set(id(x) for s_ in exec_try.body for x in ast.walk(s_) if isinstance(x, ast.stmt))
+            for c, st, who in [(dv.exec_call, dv.exec_st, dv.route_var)] + extra_sites:
+                bound = isinstance(st, ast.Assign) and st.value is c and len(st.targets) == 1 and norm(st.targets[0]) == dv.ret_var
+                after = [m for n in cfg.nodes_of(st) for m in cfg.succ[n] if (n, m) not in cfg.exc_edges]
+                leaves = [n for n in cfg.reach(after, avoid=tests, normal_only=True) if id(cfg.nodes[n].stmt) not in body_ids]
+                ok = bound and bool(tests) and not leaves
+                rep.check('R08.b', fkey(f, 'result of %s.execute is tested' % who), ok,
+                          'what %s.execute(...) returns is tested for being a Response before the protected region is left' % who if ok else
+                          'what %s.execute(...) returns leaves the protected region without the isinstance(.., BaseResponse) test '
+                          '(a None / str result is handed to the WSGI server as it is)' % who, app, st)
+        for c in dv.extra_exec:
+            if not any(c is c2 for c2, _, _ in extra_sites) and protected_by(f, stmt_of(app, c), 'Exception') is None:
+                rep.fail('R08.b', fkey(f, 'result of %s.execute is tested' % norm(c.func.value)),
+                         'what %s.execute(...) returns is never tested for being a Response: the call is outside the protected region '
+                         'in which a non-Response result becomes a TypeError' % norm(c.func.value), app, stmt_of(app, c))
         wz = repo.resolve(app, 'BaseResponse')
         ok = wz[0] == 'class' and wz[2].name == 'BaseResponse'
         rep.check('R08.b', '%s::BaseResponse' % APP, ok, 'BaseResponse is werkzeug\'s' if ok else 'BaseResponse is not werkzeug\'s class', app)
@@ -448,7 +489,7 @@ def run(rep):
 
 
     def converter_rules():
-        dv = DispatchView(repo)
+        dv = DispatchView(repo, multi_exec=True)
         f = dv.fi
         # ---- R08.f -----------------------------------------------------------
         rep.rule('R08.f', 'dispatch calls route.match_path outside its try: converters there must run under a handler (a segment that '
